@@ -219,6 +219,9 @@ def drv_tt_op(doc, args, inst):
             r = tt_binary(op, x, y)
         except Exception as e:
             if expect_raise:
+                if 'documented_type' in doc.get('obligation', '') and type(e).__name__ not in ('ShapeMismatch', 'RankMismatch', 'IncompatibleTypes', 'InvalidArguments', 'NotImplementedError'):
+                    msgs.append('raises %s (%s) instead of a documented library exception for x=%s y=%s' % (type(e).__name__, str(e)[:80], descr(x), descr(y)))
+                    break
                 continue
             # does the dense counterpart succeed?
             try:
